@@ -60,7 +60,7 @@ CHECK_FIGURES_WITHOUT_COLLATERAL = True
 
 
 def plan(tier, seed):
-    n = 26 if tier == "quick" else 900
+    n = 26 if tier == "quick" else 500
     return [{"shard": i, "cases": n} for i in range(NSHARDS)]
 
 
